@@ -3,14 +3,16 @@ from .. import cases, monitors, oracles
 from . import _align_common as ac
 
 TITLE = "Disorder values follow the definition"
-DECIDING = ["M-DIS", "M-DEF-ALIGN", "M-DEF-UNITARY", "M-SLOT-ORDER", "M-CARRIED-VS-RECOMPUTED", "M-AFTER-EDIT"]
+DECIDING = ["M-DIS", "M-DEF-ALIGN", "M-DEF-UNITARY", "M-SLOT-ORDER", "M-CARRIED-VS-RECOMPUTED", "M-AFTER-EDIT", "M-DIS-CONCURRENT"]
 LEVEL = "exploration"
 RULE = ("(A) alignments returned by the library (best / soft / fast with random window sizes) on seeded random continua: "
         "cached Alignment.disorder and carried per-unitary disorders against the float64 definition recomputed from "
         "the units, then Alignment.compute_disorder and the lazily summed disorder of a rebuilt Alignment; (B) hand-built "
         "alignments: random partitions with every pattern of empty slots, 2-5 annotators, with or without an attached "
         "continuum, slots shuffled: Alignment.compute_disorder, the disorders it stores, UnitaryAlignment."
-        "compute_disorder, each against the definition and against each other, before and after permuting the slots. "
+        "compute_disorder, each against the definition and against each other, before and after permuting the slots; (C) returned alignments are also "
+        "computed with cylp masked, with every CBC call failing and (fast mode) with every 2nd / 3rd CBC call failing; (D) one dissimilarity object "
+        "recomputing the disorders of same-shaped alignments from 4 user threads at once. "
         "non-trivial = alignment with >= 2 real units; distinct by SHA-1 of (continuum, dissimilarity, alignment)")
 ASSUMPTIONS = [
     "the reference evaluates the definition in float64 through the dissimilarity's unit-to-unit function d() (C04 "
@@ -209,7 +211,63 @@ def check_handbuilt(ctx, case):
                                                      "order2": order2, "v2": got2}, monitor="M-SLOT-ORDER")
 
 
+def check_concurrent(ctx, case):
+    """ONE dissimilarity object used by several user threads at once to recompute the disorders of same-shaped alignments
+    (same number of unitary alignments and annotators, other units): every thread must get the value the same call gives alone."""
+    from pygamma_agreement.alignment import UnitaryAlignment
+    _, pool = ac.setup(ctx)
+    dissim = pool.get(case["dissim"])
+    aligns = [cases.build_alignment(cs, case["alignment"], continuum=None) for cs in case["continua"]]
+    try:
+        ref = [float(al.compute_disorder(dissim)) for al in aligns]
+        ref_u = [[float(UnitaryAlignment(list(ua.n_tuple)).compute_disorder(dissim)) for ua in al.unitary_alignments] for al in aligns]
+    except Exception as e:
+        ctx.fail_exc(f"concurrent:sequential-reference-raises:{type(e).__name__}", e, monitor="M-DIS-CONCURRENT")
+        return
+
+    def work(i):
+        al = cases.build_alignment(case["continua"][i], case["alignment"], continuum=None)
+        out = []
+        for _ in range(case.get("repeat", 6)):
+            tot = float(al.compute_disorder(dissim))
+            per = [float(ua.disorder) for ua in al.unitary_alignments]
+            uni = [float(UnitaryAlignment(list(ua.n_tuple)).compute_disorder(dissim)) for ua in al.unitary_alignments[:3]]
+            out.append((tot, per, uni))
+        return out
+    results = ac.concurrent_calls([(lambda i=i: work(i)) for i in range(len(aligns))])
+    for i, (res, exc) in enumerate(results):
+        ctx.count("M-DIS-CONCURRENT")
+        if exc is not None:
+            ctx.fail_exc(f"concurrent:compute_disorder-raises:{type(exc).__name__}", exc, monitor="M-DIS-CONCURRENT")
+            continue
+        for tot, per, uni in res:
+            if not oracles.close(tot, ref[i]):
+                ctx.fail("concurrent:alignment-disorder-differs-from-the-same-call-alone", {"thread": i, "concurrent": tot, "alone": ref[i]},
+                         monitor="M-DIS-CONCURRENT")
+                break
+            if any(not oracles.close(a, b) for a, b in zip(uni, ref_u[i][:3])):
+                ctx.fail("concurrent:unitary-disorder-differs-from-the-same-call-alone", {"thread": i, "concurrent": uni, "alone": ref_u[i][:3]},
+                         monitor="M-DIS-CONCURRENT")
+                break
+
+
+def gen_concurrent(rng, dspecs):
+    n = rng.choice([2, 3, 3, 4])
+    sizes = [rng.randint(2, 4) for _ in range(n)]
+    dspec = rng.choice([d for d in dspecs if cases.dissim_labels(d) is None] or [{"kind": "positional", "delta": 1.0}])
+    continua = [cases.gen_continuum(rng, n_annot=n, sizes=sizes, labels=rng.choice([cases.LABELS_SMALL, ["x", "y"], ["Noun", "Verb", "a", "b2"]]),
+                                    names=cases.ANNOTATOR_NAMES[:n], family=rng.choice(["grid", "dyadic", "longoverlap"])) for _ in range(4)]
+    for cs in continua:
+        cs.pop("readd", None)
+    if any([len(us) for us in cs["ann"].values()] != sizes for cs in continua):
+        return None        # a generated unit coincided with another one: not the same shape
+    aspec = cases.random_partition_alignment(rng, continua[0], p_join=0.6)
+    return {"type": "concurrent", "dissim": dspec, "continua": continua, "alignment": aspec, "repeat": 6}
+
+
 def check_case(ctx, case):
+    if case["type"] == "concurrent":
+        return check_concurrent(ctx, case)
     if case["type"] == "returned":
         check_returned(ctx, case)
     else:
@@ -228,6 +286,18 @@ def run(ctx):
     # degenerate weights: one of the two terms switched off, the other weight not 1
     for a_, b_ in ((0.0, 0.5), (0.0, 3.0), (0.5, 0.0), (3.0, 0.0), (0.0, 1.0)):
         dspecs.append({"kind": "combined", "alpha": a_, "beta": b_, "delta": rng.choice([0.5, 1.0, 2.0]), "pos": None, "cat": None})
+    # one dissimilarity object recomputing the disorders of same-shaped alignments in several user threads at once
+    done = 0
+    for _ in range(ctx.scale(30, 400)):
+        case = gen_concurrent(rng, dspecs)
+        if case is None:
+            continue
+        ctx.begin_case(case)
+        ctx.observe("mode", "concurrent-threads")
+        check_case(ctx, case)
+        done += 1
+        if done >= ctx.scale(6, 80):
+            break
     n_cases = ctx.scale(450, 12000)
     for i in range(n_cases):
         if ctx.out_of_time():
